@@ -246,11 +246,14 @@ func (b *c13Base) c13Editable(m *yaml.Node) (col int, ok bool) {
 	if m.Kind != yaml.MappingNode || m.Style&yaml.FlowStyle != 0 || len(m.Content) < 2 {
 		return 0, false
 	}
+	if m.Anchor != "" || m.Style&yaml.TaggedStyle != 0 {
+		return 0, false
+	}
 	col = m.Content[0].Column
 	prevLine := 0
 	for i := 0; i+1 < len(m.Content); i += 2 {
 		k := m.Content[i]
-		if k.Kind != yaml.ScalarNode || k.Column != col || k.Line <= prevLine || k.Line > len(b.Lines) || k.Anchor != "" {
+		if k.Kind != yaml.ScalarNode || k.Column != col || k.Line <= prevLine || k.Line > len(b.Lines) {
 			return 0, false
 		}
 		if k.Style&(yaml.LiteralStyle|yaml.FoldedStyle) != 0 {
@@ -298,9 +301,13 @@ type c13Mutant struct {
 	At      int  // first changed line (1-based) of the base
 	Shift   int  // number of lines inserted (>0) or removed (<0) at At
 	First   bool // the new key was put in front of the first key (positions at the old first key are ambiguous)
-	KeyPos  Pos  // position of the inserted key in the mutant
+	KeyPos  Pos  // where the text of the inserted key starts in the mutant (behind its anchor / tag / `? `)
+	KeyHi   int  // last column of the key token
+	NodePos Pos  // where yaml.v3 places the key node (at its first property)
 	MapPos  Pos  // position of the mutated mapping in the mutant
-	Problem string
+	// edits inside one line (flow mappings): diagnostics of line ColLine at or behind ColFrom move by ColShift columns
+	ColLine, ColFrom, ColShift int
+	Problem                    string
 }
 
 // c13PlainKey: can the key be written as a plain YAML scalar (letters of any script, digits, _ . -)?
@@ -322,81 +329,261 @@ const (
 	c13ValNull
 	c13ValMapping
 	c13ValSequence
-	c13ValKinds
+	c13ValKinds // number of kinds drawn at random
+	c13ValAlias = c13ValKinds
 )
 
-var c13ValNames = []string{"scalar", "null", "mapping", "sequence"}
+var c13ValNames = []string{"scalar", "null", "mapping", "sequence", "alias"}
 
-func c13InsertedLines(key string, valKind int) (lines []string, val *yaml.Node) {
+// ways of writing a key
+const (
+	c13FormPlain     = ""           // plain (double-quoted if the name cannot be written plain)
+	c13FormAnchor    = "anchor"     // &c13n key: v
+	c13FormTag       = "tag"        // !!str key: v
+	c13FormAnchorTag = "anchor-tag" // &c13n !!str key: v
+	c13FormSingle    = "single-quoted"
+	c13FormDouble    = "double-quoted"
+	c13FormExplicit  = "explicit" // ? key NEWLINE : v
+	c13FormAlias     = "alias"    // *c13a : v   (the anchor c13a is put on a scalar of the base beforehand)
+	c13FormMerge     = "merge"    // <<: *c13a
+)
+
+const c13AnchorName = "c13a"
+
+type c13Inserted struct {
+	Lines    []string // first line starts with the key (or its properties); further lines are relative to the key column
+	Flow     string   // the same entry written for a flow mapping ("" if this form / value has no flow spelling)
+	Key, Val *yaml.Node
+	NodeOff  int // column offset of the yaml node of the key
+	KeyOff   int // column offset of the text of the key
+	KeyWidth int // width of the key token in characters
+}
+
+func c13InsertedEntry(key string, valKind int, form string) c13Inserted {
 	kt := key
 	if !c13PlainKey(key) {
 		kt = strconv.Quote(key)
 	}
+	var e c13Inserted
+	e.Key = &yaml.Node{Kind: yaml.ScalarNode, Tag: "!!str", Value: key}
+	prefix := ""
+	switch form {
+	case c13FormAnchor:
+		prefix = "&c13n "
+	case c13FormTag:
+		prefix = "!!str "
+	case c13FormAnchorTag:
+		prefix = "&c13n !!str "
+	case c13FormSingle:
+		kt = "'" + strings.ReplaceAll(key, "'", "''") + "'"
+	case c13FormDouble:
+		kt = strconv.Quote(key)
+	case c13FormExplicit:
+		prefix = "? "
+		e.NodeOff = 2
+	case c13FormAlias:
+		kt = "*" + c13AnchorName + " "
+		e.Key = &yaml.Node{Kind: yaml.AliasNode, Value: c13AnchorName}
+	case c13FormMerge:
+		kt = "<<"
+		e.Key = &yaml.Node{Kind: yaml.ScalarNode, Tag: "!!merge", Value: "<<"}
+		valKind = c13ValAlias
+	}
+	e.KeyOff = len(prefix)
+	e.KeyWidth = len([]rune(strings.TrimRight(kt, " ")))
+	head := prefix + kt
+	if form == c13FormExplicit {
+		if valKind == c13ValMapping || valKind == c13ValSequence {
+			valKind = c13ValScalar
+		}
+		switch valKind {
+		case c13ValNull:
+			e.Lines = []string{head}
+			e.Val = &yaml.Node{Kind: yaml.ScalarNode, Tag: "!!null"}
+		case c13ValAlias:
+			e.Lines = []string{head, ": *" + c13AnchorName}
+			e.Val = &yaml.Node{Kind: yaml.AliasNode, Value: c13AnchorName}
+		default:
+			e.Lines = []string{head, ": c13v"}
+			e.Val = &yaml.Node{Kind: yaml.ScalarNode, Tag: "!!str", Value: "c13v"}
+		}
+		return e
+	}
 	switch valKind {
 	case c13ValNull:
-		return []string{kt + ":"}, &yaml.Node{Kind: yaml.ScalarNode, Tag: "!!null"}
+		e.Lines = []string{head + ":"}
+		e.Val = &yaml.Node{Kind: yaml.ScalarNode, Tag: "!!null"}
 	case c13ValMapping:
-		return []string{kt + ":", "  c13k: c13v"}, &yaml.Node{Kind: yaml.MappingNode, Tag: "!!map", Content: []*yaml.Node{
+		e.Lines = []string{head + ":", "  c13k: c13v"}
+		e.Flow = head + ": {c13k: c13v}"
+		e.Val = &yaml.Node{Kind: yaml.MappingNode, Tag: "!!map", Content: []*yaml.Node{
 			{Kind: yaml.ScalarNode, Tag: "!!str", Value: "c13k"}, {Kind: yaml.ScalarNode, Tag: "!!str", Value: "c13v"}}}
 	case c13ValSequence:
-		return []string{kt + ":", "  - c13v"}, &yaml.Node{Kind: yaml.SequenceNode, Tag: "!!seq", Content: []*yaml.Node{
+		e.Lines = []string{head + ":", "  - c13v"}
+		e.Flow = head + ": [c13v]"
+		e.Val = &yaml.Node{Kind: yaml.SequenceNode, Tag: "!!seq", Content: []*yaml.Node{
 			{Kind: yaml.ScalarNode, Tag: "!!str", Value: "c13v"}}}
+	case c13ValAlias:
+		e.Lines = []string{head + ": *" + c13AnchorName}
+		e.Flow = e.Lines[0]
+		e.Val = &yaml.Node{Kind: yaml.AliasNode, Value: c13AnchorName}
+	default:
+		e.Lines = []string{head + ": c13v"}
+		e.Flow = e.Lines[0]
+		e.Val = &yaml.Node{Kind: yaml.ScalarNode, Tag: "!!str", Value: "c13v"}
 	}
-	return []string{kt + ": c13v"}, &yaml.Node{Kind: yaml.ScalarNode, Tag: "!!str", Value: "c13v"}
+	return e
 }
 
-// c13Insert inserts `key: <value>` as the p-th key (0..n) of the mapping at mn.
-func (b *c13Base) c13Insert(mn *c13MapNode, p int, key string, valKind int) *c13Mutant {
+// c13FlowEditable: a flow mapping written completely on one line of ASCII text.
+func (b *c13Base) c13FlowEditable(m *yaml.Node) bool {
+	if m.Kind != yaml.MappingNode || m.Style&yaml.FlowStyle == 0 || len(m.Content) < 2 || m.Anchor != "" || m.Style&yaml.TaggedStyle != 0 {
+		return false
+	}
+	if m.Line < 1 || m.Line > len(b.Lines) {
+		return false
+	}
+	for _, ch := range []byte(b.Lines[m.Line-1]) {
+		if ch >= 0x80 || ch == '\t' {
+			return false
+		}
+	}
+	var oneLine func(n *yaml.Node) bool
+	oneLine = func(n *yaml.Node) bool {
+		if n.Line != m.Line {
+			return false
+		}
+		for _, c := range n.Content {
+			if !oneLine(c) {
+				return false
+			}
+		}
+		return true
+	}
+	return oneLine(m)
+}
+
+// c13FlowClose finds the 0-based offset of the `}` closing the flow mapping that opens at offset open.
+func c13FlowClose(line string, open int) int {
+	depth := 0
+	var quote byte
+	for i := open; i < len(line); i++ {
+		ch := line[i]
+		if quote != 0 {
+			if ch == quote {
+				if quote == '\'' && i+1 < len(line) && line[i+1] == '\'' {
+					i++
+					continue
+				}
+				quote = 0
+			} else if quote == '"' && ch == '\\' {
+				i++
+			}
+			continue
+		}
+		switch ch {
+		case '\'', '"':
+			// a quote starts a quoted scalar only at the start of a token
+			if i > 0 && strings.IndexByte(" ,:[{", line[i-1]) >= 0 {
+				quote = ch
+			}
+		case '{', '[':
+			depth++
+		case '}', ']':
+			depth--
+			if depth == 0 {
+				return i
+			}
+		}
+	}
+	return -1
+}
+
+// c13Insert inserts `key: <value>` as the p-th key (0..n) of the mapping at mn; form says how the key is written.
+func (b *c13Base) c13Insert(mn *c13MapNode, p int, key string, valKind int, form string) *c13Mutant {
 	m := c13At(b.Doc, mn.Idx)
-	col, ok := b.c13Editable(m)
-	if !ok {
-		return &c13Mutant{Problem: "mapping is not in one-key-per-line block style"}
-	}
 	n := len(m.Content) / 2
-	ins, valNode := c13InsertedLines(key, valKind)
-	indent := strings.Repeat(" ", col-1)
-	lines := append([]string{}, b.Lines...)
-	var at int
-	mu := &c13Mutant{Shift: len(ins)}
-	var newLines []string
-	switch {
-	case p == 0:
-		at = m.Content[0].Line
-		old := lines[at-1]
-		prefix := old[:col-1]
-		newLines = append(newLines, prefix+ins[0])
-		for _, l := range ins[1:] {
-			newLines = append(newLines, indent+l)
+	var mu *c13Mutant
+	var e c13Inserted
+	if b.c13FlowEditable(m) {
+		if valKind == c13ValNull {
+			valKind = c13ValScalar
 		}
-		lines[at-1] = indent + old[col-1:]
-		mu.First = true
-	case p < n:
-		at = m.Content[2*p].Line
-		for _, l := range ins {
-			newLines = append(newLines, indent+l)
+		e = c13InsertedEntry(key, valKind, form)
+		if e.Flow == "" {
+			return &c13Mutant{Problem: "this key form has no flow spelling"}
 		}
-	default:
-		at = b.c13EndLine(col, m.Content[2*(n-1)].Line) + 1
-		for _, l := range ins {
-			newLines = append(newLines, indent+l)
+		line := b.Lines[m.Line-1]
+		var off int
+		text := e.Flow + ", "
+		keyAt := 0 // offset of the entry inside text
+		if p < n {
+			off = m.Content[2*p].Column - 1
+		} else {
+			off = c13FlowClose(line, m.Column-1)
+			if off < 0 {
+				return &c13Mutant{Problem: "closing brace of the flow mapping not found"}
+			}
+			text = ", " + e.Flow
+			keyAt = 2
 		}
+		lines := append([]string{}, b.Lines...)
+		lines[m.Line-1] = line[:off] + text + line[off:]
+		mu = &c13Mutant{Src: strings.Join(lines, "\n"), At: len(lines) + 2, ColLine: m.Line, ColFrom: off + 1, ColShift: len(text)}
+		mu.NodePos = Pos{m.Line, off + 1 + keyAt + e.NodeOff}
+		mu.KeyPos = Pos{m.Line, off + 1 + keyAt + e.KeyOff}
+	} else {
+		col, ok := b.c13Editable(m)
+		if !ok {
+			return &c13Mutant{Problem: "mapping is neither in one-key-per-line block style nor a one-line flow mapping"}
+		}
+		e = c13InsertedEntry(key, valKind, form)
+		ins := e.Lines
+		indent := strings.Repeat(" ", col-1)
+		lines := append([]string{}, b.Lines...)
+		var at int
+		mu = &c13Mutant{Shift: len(ins)}
+		var newLines []string
+		switch {
+		case p == 0:
+			at = m.Content[0].Line
+			old := lines[at-1]
+			prefix := old[:col-1]
+			newLines = append(newLines, prefix+ins[0])
+			for _, l := range ins[1:] {
+				newLines = append(newLines, indent+l)
+			}
+			lines[at-1] = indent + old[col-1:]
+			mu.First = true
+		case p < n:
+			at = m.Content[2*p].Line
+			for _, l := range ins {
+				newLines = append(newLines, indent+l)
+			}
+		default:
+			at = b.c13EndLine(col, m.Content[2*(n-1)].Line) + 1
+			for _, l := range ins {
+				newLines = append(newLines, indent+l)
+			}
+		}
+		mu.At = at
+		if at-1 > len(lines) {
+			return &c13Mutant{Problem: "insertion point beyond the end of the file"}
+		}
+		res := append([]string{}, lines[:at-1]...)
+		res = append(res, newLines...)
+		res = append(res, lines[at-1:]...)
+		mu.Src = strings.Join(res, "\n")
+		mu.NodePos = Pos{at, col + e.NodeOff}
+		mu.KeyPos = Pos{at, col + e.KeyOff}
 	}
-	mu.At = at
-	if at-1 > len(lines) {
-		return &c13Mutant{Problem: "insertion point beyond the end of the file"}
-	}
-	res := append([]string{}, lines[:at-1]...)
-	res = append(res, newLines...)
-	res = append(res, lines[at-1:]...)
-	mu.Src = strings.Join(res, "\n")
-	mu.KeyPos = Pos{at, col}
+	mu.KeyHi = mu.KeyPos.Col + e.KeyWidth - 1
 
 	// intended tree
 	want := c13Clone(b.Doc)
 	wm := c13At(want, mn.Idx)
-	kn := &yaml.Node{Kind: yaml.ScalarNode, Tag: "!!str", Value: key}
 	cont := append([]*yaml.Node{}, wm.Content[:2*p]...)
-	cont = append(cont, kn, valNode)
+	cont = append(cont, e.Key, e.Val)
 	cont = append(cont, wm.Content[2*p:]...)
 	wm.Content = cont
 	b.c13SelfCheck(mu, want, mn, 2*p)
@@ -459,8 +646,8 @@ func (b *c13Base) c13SelfCheck(mu *c13Mutant, want *yaml.Node, mn *c13MapNode, k
 	mu.MapPos = Pos{gm.Line, gm.Column}
 	if keyIdx >= 0 {
 		k := gm.Content[keyIdx]
-		if k.Line != mu.KeyPos.Line || k.Column != mu.KeyPos.Col {
-			mu.Problem = fmt.Sprintf("inserted key expected at %d:%d but parsed at %d:%d", mu.KeyPos.Line, mu.KeyPos.Col, k.Line, k.Column)
+		if k.Line != mu.NodePos.Line || k.Column != mu.NodePos.Col {
+			mu.Problem = fmt.Sprintf("inserted key expected at %d:%d but parsed at %d:%d", mu.NodePos.Line, mu.NodePos.Col, k.Line, k.Column)
 		}
 	}
 }
@@ -524,12 +711,15 @@ func c13Diff(base, got []Diag, mu *c13Mutant, firstKeyCol int) (lost, fresh []Di
 		return true
 	}
 	for _, d := range base {
-		line := d.Line
+		line, dcol := d.Line, d.Col
 		if line >= mu.At {
 			line += mu.Shift
 		}
+		if d.Line == mu.ColLine && d.Col >= mu.ColFrom {
+			dcol += mu.ColShift
+		}
 		msg := c13NormMsg(d.Msg)
-		if find(line, d.Col, d.Kind, msg) {
+		if find(line, dcol, d.Kind, msg) {
 			continue
 		}
 		// a key put in front of the first key takes over the position of the mapping itself
@@ -556,6 +746,7 @@ type c13Op struct {
 	ValKind int
 	Orig    int // index of the original key for duplicates
 	Mand    *c13Mand
+	Form    string // how the inserted key is written (c13Form...)
 }
 
 func c13CaseVariants(k string) []string {
@@ -713,6 +904,9 @@ func (b *c13Base) c13Plan(mn *c13MapNode, level int, rnd *Rand, pool []string) [
 		}
 	}
 	for mi := range sec.Mand {
+		if m.Style&yaml.FlowStyle != 0 {
+			break // removal is implemented for block mappings only
+		}
 		md := &sec.Mand[mi]
 		cnt, at := 0, -1
 		for i, k := range keys {
@@ -758,7 +952,7 @@ func c13Apply(c *Case, b *c13Base, mn *c13MapNode, op c13Op, strictSelfCheck boo
 	if op.Kind == "delete" {
 		mu = b.c13Delete(mn, op.Pos)
 	} else {
-		mu = b.c13Insert(mn, op.Pos, op.Key, op.ValKind)
+		mu = b.c13Insert(mn, op.Pos, op.Key, op.ValKind, op.Form)
 	}
 	if mu.Problem != "" {
 		c.Count("mutations_not_expressible", 1)
@@ -773,7 +967,7 @@ func c13Apply(c *Case, b *c13Base, mn *c13MapNode, op c13Op, strictSelfCheck boo
 	detail := func(extra map[string]interface{}) map[string]interface{} {
 		d := map[string]interface{}{
 			"base": b.ID, "section": sec.Name, "path": strings.Join(mn.Path, " / "), "mutation": op.Kind, "key": op.Key,
-			"position_index": op.Pos, "value_kind": c13ValNames[op.ValKind], "base_src": b.Src, "src": mu.Src,
+			"position_index": op.Pos, "value_kind": c13ValNames[op.ValKind], "key_form": op.Form, "base_src": b.Src, "src": mu.Src,
 			"base_diags": diagStrings(b.Diags), "diags": diagStrings(got),
 		}
 		for k, v := range extra {
@@ -781,7 +975,7 @@ func c13Apply(c *Case, b *c13Base, mn *c13MapNode, op c13Op, strictSelfCheck boo
 		}
 		return d
 	}
-	c.Logf("--- %s: %s key=%q as key #%d value=%s in section %s at %s (changed line %d, %+d lines)", b.ID, op.Kind, op.Key, op.Pos, c13ValNames[op.ValKind], sec.Name, strings.Join(mn.Path, "/"), mu.At, mu.Shift)
+	c.Logf("--- %s: %s key=%q form=%q as key #%d value=%s in section %s at %s (changed line %d, %+d lines)", b.ID, op.Kind, op.Key, op.Form, op.Pos, c13ValNames[op.ValKind], sec.Name, strings.Join(mn.Path, "/"), mu.At, mu.Shift)
 	disagree := func(sig, what string, det map[string]interface{}) {
 		c.Logf("DISAGREEMENT %s\n  %s\n  mutated workflow:\n%s\n  base diagnostics:\n    %s\n  diagnostics of the mutant:\n    %s", sig, what, mu.Src,
 			strings.Join(diagStrings(b.Diags), "\n    "), strings.Join(diagStrings(got), "\n    "))
@@ -836,14 +1030,34 @@ func c13Apply(c *Case, b *c13Base, mn *c13MapNode, op c13Op, strictSelfCheck boo
 	}
 	pc := c13PosClass(op.Pos, n)
 	c.SetAdd("covered", sec.Name+":"+op.Kind+":"+pc)
-	c.Nontrivial(b.ID + "|" + strings.Join(mn.Path, "/") + "|" + op.Kind + "|" + op.Key + "|" + strconv.Itoa(op.Pos) + "|" + strconv.Itoa(op.ValKind))
+	c.Nontrivial(b.ID + "|" + strings.Join(mn.Path, "/") + "|" + op.Kind + "|" + op.Key + "|" + strconv.Itoa(op.Pos) + "|" + strconv.Itoa(op.ValKind) + "|" + op.Form)
 
+	// the report has to sit on the key: at its first character for a plain key, inside the key token
+	// (behind anchor / tag / `? `) for the other ways of writing a key
+	lo, hi := want.Col, want.Col
+	if op.Form != c13FormPlain && !atItem {
+		hi = mu.KeyHi
+	}
+	flow := m.Style&yaml.FlowStyle != 0
+	formLabel := op.Form
+	if formLabel == c13FormPlain && op.ValKind == c13ValAlias {
+		formLabel = "alias-value"
+	}
+	if formLabel != c13FormPlain {
+		c.SetAdd("forms_covered", formLabel+":"+c13Group(sec.Name)+":"+kindClass)
+	}
+	if flow {
+		c.SetAdd("forms_covered", "flow:"+c13Group(sec.Name)+":"+kindClass)
+	}
 	reported, namedElsewhere := false, false
 	quoted := strconv.Quote(op.Key)
 	for _, d := range fresh {
 		names := strings.Contains(d.Msg, quoted) || strings.Contains(d.Msg, `"`+op.Key+`"`)
-		if d.Line == want.Line && d.Col == want.Col {
+		if d.Line == want.Line && d.Col >= lo && d.Col <= hi {
 			switch {
+			case op.Form == c13FormAlias:
+				// a key written as an alias: the statement only lets us demand some report located at that key
+				reported = true
 			case kindClass == "duplicate-key":
 				// a repetition has to be reported as one, not merely by some diagnostic that sits at the key
 				if names && c13DupRe.MatchString(d.Msg) {
@@ -876,11 +1090,21 @@ func c13Apply(c *Case, b *c13Base, mn *c13MapNode, op c13Op, strictSelfCheck boo
 		if op.Kind == "dup-case" {
 			sig += ":other-letter-case"
 		}
+		if formLabel != c13FormPlain {
+			sig += ":key-form=" + formLabel
+			what += " (key form: " + formLabel + ")"
+		}
+		if flow {
+			sig += ":flow-mapping"
+		}
 		disagree(sig, what, detail(map[string]interface{}{"expected_position": want, "new_diags": diagStrings(fresh)}))
 	}
 	// siblings: every diagnostic of the base must survive
 	inMap := 0
-	endLine := b.c13EndLine(col, m.Content[2*(n-1)].Line)
+	endLine := m.Line
+	if !flow {
+		endLine = b.c13EndLine(col, m.Content[2*(n-1)].Line)
+	}
 	for _, d := range b.Diags {
 		if d.Line >= m.Content[0].Line && d.Line <= endLine {
 			inMap++
@@ -891,7 +1115,14 @@ func c13Apply(c *Case, b *c13Base, mn *c13MapNode, op c13Op, strictSelfCheck boo
 		c.Count("mutants_with_sibling_diagnostics", 1)
 	}
 	if len(lost) > 0 {
-		disagree("C13:sibling-diagnostic-lost:"+sec.Name+":"+kindClass,
+		lostSig := "C13:sibling-diagnostic-lost:" + sec.Name + ":" + kindClass
+		if formLabel != c13FormPlain {
+			lostSig += ":key-form=" + formLabel
+		}
+		if flow {
+			lostSig += ":flow-mapping"
+		}
+		disagree(lostSig,
 			fmt.Sprintf("%s %q in %s (%s): %d diagnostic(s) of the base workflow disappeared, first: %s", kindClass, op.Key, sec.Name, strings.Join(mn.Path, "/"), len(lost), lost[0].String()),
 			detail(map[string]interface{}{"lost": diagStrings(lost), "new_diags": diagStrings(fresh)}))
 	}
@@ -946,7 +1177,7 @@ func c13CheckTemplate(c *Case, t *c13Template) {
 				}
 			}
 		}
-		if _, e := b.c13Editable(m); !e {
+		if _, e := b.c13Editable(m); !e && !b.c13FlowEditable(m) {
 			r.Inconclusive(fmt.Sprintf("template %s: mapping %v is not editable at text level", t.Name, mn.Path))
 		}
 	}
@@ -1004,6 +1235,7 @@ func runC13(r *Run) {
 	r.Rule = "bases: four hand-written templates (together every accepted key of every section of the table) rendered clean, all-dirty (every scalar sibling carries a known diagnostic) and with seeded random dirty subsets (thorough: more subsets and each alternation dirty alone), plus every workflow under testdata/{ok,examples,err} of the repository. " +
 		"For every block-style mapping node matching a table row: foreign key (synthetic name, a key valid in another section, a name with a space; scalar/null/mapping/sequence value) at every position; every key repeated behind the original (same spelling; other letter cases: a repetition in case-insensitive name mappings, a foreign key in fixed sections); every mandatory key deleted. " +
 		"Family names: a template with every user-named mapping (dispatch/call inputs, call secrets and outputs, env at workflow/job/step/container/service level, jobs, job outputs, matrix rows, row values, include/exclude items, services, step and job with, job secrets) rendered with generated names of class ascii / mixed / nonascii (Latin-1, Greek, Cyrillic letters with one-to-one case pairs, pair table written in the monitor); each name repeated as upper, lower, capitalised, only non-ASCII letters flipped, only ASCII letters flipped, one letter flipped, all flipped, random mixture. " +
+		"Families forms-*: in every mapping of every template a foreign key and a repetition written with an anchor, an explicit tag, both, single / double quotes, as explicit `? key`, as an alias of a scalar anchored elsewhere (and of the anchored original key), as merge key `<<: *a`, and with an alias as value; template K adds one-line flow mappings in every section group, keys that already carry properties, and alias-valued siblings. " +
 		"Each mutant is re-parsed with yaml.v3 and compared with the intended tree before it is judged. Non-trivial = distinct (base, mapping path, mutation, key, position, value kind)."
 	r.Assume("yaml.v3 line/column of a key is the position at which actionlint has to report it (C07 checks positions independently)")
 	r.Assume("a diagnostic is identified by (line, column, kind, message with embedded line:N,col:M references blanked); base diagnostics below the mutated line are expected shifted by the number of inserted lines")
@@ -1012,6 +1244,7 @@ func runC13(r *Run) {
 	r.Assume("not in the compared domain: flow-style mappings and mappings with several keys on one line (not expressible as a line edit, counted), everything below a repeated key (its value is not part of the workflow), a `schedule` value that is not a sequence, removal of a key whose absence the base already reports")
 	r.Assume("generated names never contain letters with special case folding (ß, ÿ, µ, İ/ı, ſ, Kelvin/Ångström signs, final sigma, accented Greek, titlecase digraphs): the statement does not say how those compare")
 	r.Assume("a letter-case variant of a key of a fixed (case-sensitive) section must be reported as an unknown key and must not be reported as a repetition")
+	r.Assume("a key written with an anchor, a tag or `? ` has to be reported inside the key token behind those properties; a key written as an alias only has to receive some diagnostic located at the alias; `<<` is a key outside every fixed key set")
 	r.Assume("additional new diagnostics besides the demanded one are counted, not judged (the statement does not forbid them)")
 
 	pool := c13ForeignPool()
@@ -1073,6 +1306,31 @@ func runC13(r *Run) {
 				}
 			}})
 		}
+		{
+			fam := "forms-" + t.Name
+			fams = append(fams, &Family{Name: fam, N: r.Q(2, 6) * nNodes, Do: func(c *Case) {
+				bi, ni := c.Idx/nNodes, c.Idx%nNodes
+				pick := func(int) bool { return bi == 1 }
+				if bi > 1 {
+					rr := NewRand(r.Seed, "C13", fam, "base").Sub(bi)
+					bits := make([]bool, nm)
+					for i := range bits {
+						bits[i] = rr.Bool()
+					}
+					pick = func(i int) bool { return bits[i] }
+				}
+				b, _, err := c13TemplateBase(t, fmt.Sprintf("forms-%d", bi), pick)
+				if err != nil {
+					c.Violation("C13:fatal-error", "a template rendering cannot be linted: "+err.Error(), map[string]interface{}{"template": t.Name})
+					return
+				}
+				if len(b.Nodes) != nNodes {
+					c.SetAdd("selfcheck_failures", fmt.Sprintf("%s: %d mapping nodes instead of %d", b.ID, len(b.Nodes), nNodes))
+					return
+				}
+				c13FormsNode(c, b, ni, level, pool)
+			}})
+		}
 	}
 	{
 		files := c13CorpusFiles()
@@ -1109,6 +1367,7 @@ func runC13(r *Run) {
 		return
 	}
 	c13NamesFloors(r)
+	c13FormsFloors(r)
 
 	// coverage floors
 	if n := r.SetLen("selfcheck_failures"); n > 0 {
